@@ -172,6 +172,38 @@ class NameLookupRewriteVisitor(NodeTransformerBase):
         finally:
             self.scopes.pop()
 
+    def _visit_comprehension(self, node: Any) -> ast.AST:
+        # The loop variables of a comprehension are local to it (as in
+        # Python); only the first iterable is evaluated in the
+        # enclosing scope.
+        first = node.generators[0]
+        first.iter = self.visit(first.iter)
+        scope = set(self.scopes[-1])
+        for generator in node.generators:
+            for target in ast.walk(generator.target):
+                if isinstance(target, ast.Name):
+                    scope.add(target.id)
+        self.scopes.append(scope)
+        try:
+            for generator in node.generators:
+                generator.target = self.visit(generator.target)
+                if generator is not first:
+                    generator.iter = self.visit(generator.iter)
+                generator.ifs = [self.visit(cond) for cond in generator.ifs]
+            if isinstance(node, ast.DictComp):
+                node.key = self.visit(node.key)
+                node.value = self.visit(node.value)
+            else:
+                node.elt = self.visit(node.elt)
+        finally:
+            self.scopes.pop()
+        return node  # type: ignore[no-any-return]
+
+    visit_ListComp = _visit_comprehension
+    visit_SetComp = _visit_comprehension
+    visit_GeneratorExp = _visit_comprehension
+    visit_DictComp = _visit_comprehension
+
 
 class ItemLookupOnAttributeErrorVisitor(NodeTransformerBase):
     def visit_Attribute(self, node: ast.Attribute) -> ast.AST:
